@@ -129,6 +129,7 @@ func runC20(r *Run) {
 			if !q.done {
 				q.found = libGoroutines()
 				q.done = true
+
 			}
 		}
 	}
@@ -145,6 +146,13 @@ func runC20(r *Run) {
 			mine++
 		}
 		if p.pair {
+			mine++ // the other endpoint's timeoutLoop
+		}
+		// (counted before the connection exists: its goroutines start inside the
+		// handshake, and a connection that runs concurrently may reach its check
+		// while this goroutine is parked there)
+		openLib += mine
+		if p.pair {
 			o := PairOpts{}
 			if p.compress {
 				o.CMode, o.SMode = websocket.CompressionContextTakeover, websocket.CompressionContextTakeover
@@ -158,8 +166,6 @@ func runC20(r *Run) {
 			if !p.libClient {
 				c, other = srv, cli
 			}
-			mine++ // the other endpoint's timeoutLoop
-			openLib += mine
 			r.S.Go(who+".other", func() {
 				for {
 					if _, _, err := other.Read(bg); err != nil {
@@ -183,7 +189,6 @@ func runC20(r *Run) {
 				// a transport whose Close lingers for 8 s
 				rc.Lib.CloseDelay = 8 * time.Second
 			}
-			openLib += mine
 			// cooperative raw peer: answers pings, echoes Close
 			peerEcho := p.ending != 7 && p.ending != 16 && p.ending != 18 && p.ending != 19
 			r.S.Go(who+".peer", func() {
